@@ -645,6 +645,27 @@ def run_c10(chk):
             expect = core.parallel([(lambda k=k, n=n: L.solo_fresh_interpreter(k, n)) for k, n in (('stat_s', 'S0'), ('stat_n', 'N1'), ('stat_n', 'N2'))], max_workers=3)
             reqs, apps = [seq], [a]
             flat = True
+        elif arr == 'config_churn':
+            # short-lived applications with a tight configuration come and go (a test runner, a plug-in host); applications
+            # constructed afterwards with the default configuration behave as if they were alone
+            import gc
+
+            def churn():
+                for _i in range(25):
+                    x = L.make_app({'max_body_size': 5, 'max_memfile_size': 3})
+                    L.serve(x, L.environ_for('plain', 'Z'))
+                x = None
+                gc.collect()
+                return 'churned'
+
+            def fresh_serve(k, n):
+                # (configured, but with limits no request here comes near: the answers are those of the default configuration)
+                return L.serve(L.make_app({'max_body_size': 50000 + len(n), 'max_memfile_size': 20000}), L.environ_for(k, n))
+            seq = [churn, (lambda: fresh_serve('body', 'C1')), churn, (lambda: fresh_serve('form', 'C2')), (lambda: fresh_serve('bigbody', 'C3')),
+                   churn, (lambda: fresh_serve('body', 'C4')), (lambda: fresh_serve('mprep', 'C5'))]
+            expect = ['churned', solo('body', 'C1'), 'churned', solo('form', 'C2'), solo('bigbody', 'C3'), 'churned', solo('body', 'C4'), solo('mprep', 'C5')]
+            reqs, apps = [seq], [a]
+            flat = True
         elif arr == 'module_helpers':
             # ombott.redirect() called by a handler of an application that is not the default one: on a thread the default
             # application never served on, and again after the default application answered there with headers of its own.
@@ -717,7 +738,7 @@ def run_c10(chk):
             raise core.MachineryError(arr)
         res, tr, taken = L.run_threads(apps, reqs, sched, acc if acc.ok else None)
         ok = []
-        if arr in ('alternate', 'create_between', 'listener', 'status_table', 'shared_environ', 'custom_errors_map', 'custom404', 'module_helpers'):
+        if arr in ('alternate', 'create_between', 'listener', 'status_table', 'shared_environ', 'custom_errors_map', 'custom404', 'module_helpers', 'config_churn'):
             ok = [expect[i] is None or (expect[i](res[0][i]) if callable(expect[i]) else res[0][i] == expect[i]) for i in range(len(expect))]
         elif arr == 'lazy_drain':
             got_a, got_mid = res[0][0]
@@ -758,6 +779,8 @@ def run_c10(chk):
     run_arr('shared_environ', [])
     run_arr('custom404', [])
     run_arr('module_helpers', [])
+    run_arr('config_churn', [])
+    run_arr('config_churn', [])
     run_arr('custom_errors_map', [])          # last of the one-shot arrangements: it may change process-wide defaults for good
     run_arr.force_stream = True          # a streamed body (drained at once) right after the other application served
     run_arr('alternate', [])
